@@ -123,7 +123,15 @@ Section WithCType.
     match path, sp with
     | [], SpAll => Some lit
     | _, _ =>
-      match part_of lit (root_sect lit) path with
+      (* a message whose own type is message/rfc822 and whose embedded message is not a multipart has the single part 1,
+         its own body; the numbers below it are resolved in the embedded message (C13-fix-5) *)
+      let root := root_sect lit in
+      let target :=
+        match path, ctype_of (sect_header lit root), direct_children (S (length lit)) lit root with
+        | n :: rest, CtMessage, Some [] => if n =? 1 then part_of lit root rest else None
+        | _, _, _ => part_of lit root path
+        end in
+      match target with
       | None => None
       | Some r =>
         (* HEADER / TEXT / HEADER.FIELDS of a part addressed by number: of the message it embeds if it is message/rfc822;
